@@ -114,6 +114,7 @@ type State struct {
 	lockSnap *State // state right after the first guarded Lock on this path (for locked(e))
 	snaps    map[string]*State // named snapshots (loop heads for prev(e))
 	lazyHavoc []lazyHavoc      // whole-family havocs that also cover heap arrays not materialised yet
+	spawned   []*ssa.Function  // functions run by goroutines started on this path (their writes interfere from then on)
 }
 
 type lazyHavoc struct {
@@ -140,6 +141,7 @@ func (s *State) clone() *State {
 	n.notes = append([]string(nil), s.notes...)
 	n.lockSnap = s.lockSnap
 	n.lazyHavoc = s.lazyHavoc
+	n.spawned = s.spawned
 	if len(s.snaps) > 0 {
 		n.snaps = make(map[string]*State, len(s.snaps))
 		for k, v := range s.snaps {
@@ -760,8 +762,13 @@ func tryMerge(a, b *State) *State {
 	if a.frame.fn != b.frame.fn || a.frame.parent != b.frame.parent {
 		return nil
 	}
-	if len(a.lazyHavoc) != len(b.lazyHavoc) {
+	if len(a.lazyHavoc) != len(b.lazyHavoc) || len(a.spawned) != len(b.spawned) {
 		return nil
+	}
+	for i := range a.spawned {
+		if a.spawned[i] != b.spawned[i] {
+			return nil
+		}
 	}
 	for i := range a.lazyHavoc {
 		if a.lazyHavoc[i] != b.lazyHavoc[i] {
@@ -893,6 +900,8 @@ func tryMerge(a, b *State) *State {
 	n.wm = Ite(ca, a.wm, b.wm)
 	n.held = a.held
 	n.lockSnap = a.lockSnap
+	n.spawned = a.spawned
+	n.lazyHavoc = a.lazyHavoc
 	for k, sa := range a.snaps {
 		if b.snaps[k] == sa {
 			if n.snaps == nil {
